@@ -249,6 +249,7 @@ PROPS['C04'] = dict(
              'failed for lack of resources only on an idle pilot (_active_cnt == 0)': 'P',
              'waiting alone is started as soon as enough is released': 'P: release => wait-pool scan in the next iteration; B for the placement itself',
              'idle pilot starts a fitting waiter; fitting task never failed': 'B (bounded histories); KNOWN FINDING for partition tasks',
+             'failed if it cannot fit even the idle pilot': 'P when _try_allocation is asked (raises only with nothing running) + B; KNOWN FINDING: lazy_bisect may not ask (thorough tier)',
              'higher priority first': 'P for the order in which pools are tried (_schedule_waitpool) + B (bounded histories)',
              'no pool is skipped: a ready waiting task gets a placement attempt in every pass unless a higher-priority one was tried and still waits': 'P',
              'interleaving of cancel requests between loop steps': 'P at the queue boundary (cancel arrives as a queue item) + B'})
